@@ -3,6 +3,7 @@
 package pfcp
 
 import (
+	"net"
 	"fmt"
 	"sync"
 
@@ -72,4 +73,16 @@ func (v *VServer) VQLen(seid uint64, pdr uint16) int {
 		return -1
 	}
 	return sess.Len(pdr)
+}
+
+// Pending: a datagram is waiting in the server socket's receive queue.
+func (v *VServer) Pending() bool { return v.pendingDatagrams() > 0 }
+
+// LocalAddr of the server socket ("" before it exists).
+func (v *VServer) LocalAddr() *net.UDPAddr {
+	if v.S.conn == nil {
+		return nil
+	}
+	a, _ := v.S.conn.LocalAddr().(*net.UDPAddr)
+	return a
 }
